@@ -1276,6 +1276,7 @@ func genC07(b *builder, n int) {
 	genBigValues(addPrint0)
 	genReuse7(b, 6)
 	genFileHist(b, n/40)
+	genBigTokens(b)
 	// Go values of concrete types through Marshal -> Unmarshal into the same type
 	genGoValues(b, n/3, addPrint0)
 	// code point classes; all code points
